@@ -8,6 +8,7 @@ CFGS = {
     "q_cylp_free": ("cyl", 3, 3, 1, 4, 4, 16, "free", "{0}", 1),
     "q_cyl_ren": ("cyl", 4, 8, 0, 4, 4, 13, "render", "{36, 41, 50, 64, 81}", 1),
     "q_cylp_ren": ("cyl", 4, 8, 1, 4, 4, 16, "render", "{36, 41, 50, 64, 81}", 1),
+    "q_cylp_ren9": ("cyl", 4, 9, 1, 4, 4, 16, "render", "{36, 41, 50, 64, 81}", 1),
     "t_rad_free": ("radial", 14, 1, 0, 4, 4, 16, "free", "{0}", 1),
     "t_cyl_free": ("cyl", 3, 4, 0, 4, 4, 16, "free", "{0}", 1),
     "t_cylp_free": ("cyl", 3, 4, 1, 4, 4, 16, "free", "{0}", 1),
